@@ -1530,6 +1530,21 @@ SoPlexBase<R>& SoPlexBase<R>::operator=(const SoPlexBase<R>& rhs)
       _slufactor.setTolerances(_tolerances);
       _boostedSlufactor.setTolerances(_tolerances);
 
+      // set tolerances for pricers
+      _pricerAuto.setTolerances(_tolerances);
+      _pricerDantzig.setTolerances(_tolerances);
+      _pricerParMult.setTolerances(_tolerances);
+      _pricerDevex.setTolerances(_tolerances);
+      _pricerQuickSteep.setTolerances(_tolerances);
+      _pricerSteep.setTolerances(_tolerances);
+
+      _boostedPricerAuto.setTolerances(_tolerances);
+      _boostedPricerDantzig.setTolerances(_tolerances);
+      _boostedPricerParMult.setTolerances(_tolerances);
+      _boostedPricerDevex.setTolerances(_tolerances);
+      _boostedPricerQuickSteep.setTolerances(_tolerances);
+      _boostedPricerSteep.setTolerances(_tolerances);
+
       // set message handlers in members
       _solver.setOutstream(spxout);
 
